@@ -198,6 +198,7 @@ def check_C20(tier, seed):
             r = o.split("|")[0]
             if o.startswith("HARNESS-PANIC") or r.endswith(":p") or r.endswith(",p") or ",p," in r:
                 failures.append((len(c), c, o, "the writer panicked under a fault script (%s profile): %s" % (prof, o[:200])))
+    failures += wire.value_display_failures(prop)         # Display of a MetricValue, empty packed lists included
     dist["writer_fault_histories"] = len(wcases)
     dist["queued_schedules"] = len(sched)
     if failures:
